@@ -206,6 +206,7 @@ Proof.
       destruct Ho' as (E & Ed & Hrep). injection E as ->.
       split; [apply Z.ltb_ge; exact Hrep|]. split; [reflexivity|assumption].
   - (* printf *)
+    change (Gen_KsConst.printf_reserve (zlen s)) with (zlen s + 1).
     pose proof (zlen_nonneg s) as Hs0. specialize (Hsz s (or_intror eq_refl)).
     pose proof (breserve_spec b (zlen s + 1) Hi ltac:(lia)) as Hr.
     unfold brefusal_op, bmust_fail. cbn [brequest].
